@@ -5,13 +5,16 @@
 //!          patience=<n|-> ord=0|1 rng=<u64> steps=<n> arm=default|generic|sse2|avx2 wrap=<rows>
 //!          seqs=<text,text,...>
 //! `sampler run` reads input lines on stdin and prints them followed by
-//!     ` => K=<k>|cnt=<c0,..,cK-1/...>|sym=<i,i,../...>|rerun=<same|diffN>|wts=<ok|badSTEP:..>|<record>|<record>...`
+//!     ` => K=<k>|cnt=<c0,..,cK-1/...>|sym=<i,i,../...>|rerun=<same|diffN>|wts=<ok|badSTEP:..>|pssm=<ok|badSTEP>|<record>|<record>...`
 //! where
 //!   cnt   = `SymbolCount::count_symbols` of every striped sequence (what `SamplerData::new` caches),
 //!   sym   = the symbol indices read back through `StripedSequence::index` (0..len),
 //!   rerun = `same` when a second run of the same configuration printed the same trace,
 //!   wts   = `ok` when, at every step, scoring the hold-out with the iteration's PSSM yields exactly
 //!           len - width + 1 scores through `StripedScores::iter` (what `update_holdout` turns into weights),
+//!   pssm  = `ok` when every `Iteration.pssm` equals (bit for bit) `counts.to_freq(0.1).into_scoring(bg)` with
+//!           bg = `Background::from_counts` of the symbol counts outside the windows of the sequences that
+//!           were active before the call, the hold-out excluded (recomputed here from the data set),
 //!   record = `I;<state>`               after construction
 //!          | `S;z;step;itn;itcounts;<state>`  after every `next()` that returned `Some`
 //!          | `E`                       `next()` returned `None` (converged)
@@ -25,11 +28,12 @@
 
 use std::str::FromStr;
 
-use lightmotif::abc::{Alphabet, Dna, Protein, Symbol};
+use lightmotif::abc::{Alphabet, Background, Dna, Protein, Symbol};
 use lightmotif::pli::dispatch::Dispatch;
 use lightmotif::pwm::CountMatrix;
 use lightmotif::sampler::{Sampler, SamplerBuilder, SamplerData, SamplerMode};
 use lightmotif::seq::{EncodedSequence, StripedSequence, SymbolCount};
+use generic_array::GenericArray;
 use lmh::*;
 use rand::rngs::StdRng;
 use rand::SeedableRng;
@@ -72,7 +76,7 @@ fn opt(f: &HashMap<String, String>, k: &str) -> Option<usize> {
 macro_rules! impl_run {
     ($name:ident, $abc:ty) => {
         /// One complete run of a configuration: preliminary observations and the trace.
-        fn $name(f: &HashMap<String, String>) -> (String, Vec<String>, String) {
+        fn $name(f: &HashMap<String, String>) -> (String, Vec<String>, String, String) {
             type A = $abc;
             let width: usize = f["w"].parse().unwrap();
             let wrap: usize = f["wrap"].parse().unwrap();
@@ -128,7 +132,7 @@ macro_rules! impl_run {
                 Some(x) => x,
                 None => {
                     lightmotif::pli::verif::force_backend(None);
-                    return ("cnt=P|sym=P".to_string(), vec!["P".to_string()], "ok".to_string());
+                    return ("cnt=P|sym=P".to_string(), vec!["P".to_string()], "ok".to_string(), "ok".to_string());
                 }
             };
             let pre = format!(
@@ -141,6 +145,9 @@ macro_rules! impl_run {
             let mut trace: Vec<String> = vec![];
             // the weights of update_holdout: one per valid start position of the hold-out
             let mut wts = "ok".to_string();
+            // Iteration.pssm: the scoring matrix of the alignment without the hold-out, i.e.
+            // counts.to_freq(0.1).into_scoring(background of the other active sequences outside their windows)
+            let mut pssm_ok = "ok".to_string();
 
             fn state<R: rand::Rng>(s: &Sampler<'_, R, A, Vec<StripedSequence<A>>>) -> String {
                 let cm = no_panic(|| s.count_matrix());
@@ -200,11 +207,13 @@ macro_rules! impl_run {
                 Some(s) => s,
                 None => {
                     lightmotif::pli::verif::force_backend(None);
-                    return (pre, vec!["P".to_string()], wts);
+                    return (pre, vec!["P".to_string()], wts, pssm_ok);
                 }
             };
             trace.push(format!("I;{}", state(&s)));
             for _ in 0..steps {
+                let before_active = s.active_sequences();
+                let before_starts = s.verif_starts().to_vec();
                 match no_panic(|| s.next()) {
                     None => {
                         trace.push("P".to_string());
@@ -229,6 +238,37 @@ macro_rules! impl_run {
                                 None => wts = format!("bad{}:P", it.step),
                             }
                         }
+                        if pssm_ok == "ok" && it.z < copies.len() && before_starts.len() == copies.len() {
+                            let z = it.z;
+                            let verdict = no_panic(|| {
+                                let mut bgc = GenericArray::<usize, <A as Alphabet>::K>::default();
+                                for &i in before_active.iter().filter(|&&i| i != z && i < copies.len()) {
+                                    let c = SymbolCount::<A>::count_symbols(&copies[i]);
+                                    for k in 0..c.len() {
+                                        bgc[k] += c[k];
+                                    }
+                                    for j in before_starts[i]..before_starts[i] + width {
+                                        bgc[copies[i][j].as_index()] -= 1;
+                                    }
+                                }
+                                match Background::<A>::from_counts(&bgc) {
+                                    Err(_) => true, // the sampler itself would have panicked
+                                    Ok(bg) => {
+                                        let expect = it.counts.to_freq(0.1).into_scoring(bg);
+                                        let (a, b) = (expect.matrix(), it.pssm.matrix());
+                                        a.rows() == b.rows()
+                                            && (0..a.rows()).all(|r| {
+                                                (0..a.columns()).all(|k| a[r][k].to_bits() == b[r][k].to_bits())
+                                            })
+                                    }
+                                }
+                            });
+                            match verdict {
+                                Some(true) => {}
+                                Some(false) => pssm_ok = format!("bad{}", it.step),
+                                None => pssm_ok = format!("bad{}:P", it.step),
+                            }
+                        }
                         trace.push(format!(
                             "S;{};{};{};{};{}",
                             it.z,
@@ -241,7 +281,7 @@ macro_rules! impl_run {
                 }
             }
             lightmotif::pli::verif::force_backend(None);
-            (pre, trace, wts)
+            (pre, trace, wts, pssm_ok)
         }
     };
 }
@@ -257,20 +297,20 @@ fn run_case(f: &HashMap<String, String>) -> String {
             (<Dna as Alphabet>::as_str().len(), run_dna(f))
         }
     };
-    let (k, (pre1, t1, wts)) = go(f);
-    let (_, (pre2, t2, _)) = go(f);
+    let (k, (pre1, t1, wts, pssm)) = go(f);
+    let (_, (pre2, t2, _, _)) = go(f);
     let rerun = if pre1 == pre2 && t1 == t2 {
         "same".to_string()
     } else {
         let d = t1.iter().zip(t2.iter()).position(|(a, b)| a != b).unwrap_or(t1.len().min(t2.len()));
         format!("diff{}", d)
     };
-    format!("K={}|{}|rerun={}|wts={}|{}", k, pre1, rerun, wts, t1.join("|"))
+    format!("K={}|{}|rerun={}|wts={}|pssm={}|{}", k, pre1, rerun, wts, pssm, t1.join("|"))
 }
 
 /// What happened in a run: calls of next() that changed a start / enlarged the active set / total.
 fn annotate(f: &HashMap<String, String>) -> String {
-    let (_pre, trace, _wts) = if f["abc"] == "protein" { run_protein(f) } else { run_dna(f) };
+    let (_pre, trace, _wts, _pssm) = if f["abc"] == "protein" { run_protein(f) } else { run_dna(f) };
     let mut moved = 0usize;
     let mut recruited = 0usize;
     let mut calls = 0usize;
@@ -340,10 +380,13 @@ fn gen_seq(rng: &mut Rng, abc: &str, len: usize, style: u64) -> String {
 }
 
 fn gen_case(rng: &mut Rng, id: usize, tier: &str) -> String {
-    let abc = if rng.chance(3, 5) { "dna" } else { "protein" };
-    let w = 1 + rng.below(12) as usize;
-    let n = 2 + rng.below(11) as usize;
-    // lengths width..80, all different where possible
+    // one case in twelve is "big": up to 40 sequences of up to 200 symbols, width up to 20
+    let big = rng.chance(1, 12);
+    let abc = if rng.chance(3, if big { 4 } else { 5 }) { "dna" } else { "protein" };
+    let w = 1 + rng.below(if big { 20 } else { 12 }) as usize;
+    let n = if big { 13 + rng.below(28) as usize } else { 2 + rng.below(11) as usize };
+    let maxlen: usize = if big { 200 } else { 80 };
+    // lengths width..maxlen, all different where possible
     let mut lens: Vec<usize> = vec![];
     for _ in 0..n {
         let mut l;
@@ -354,14 +397,14 @@ fn gen_case(rng: &mut Rng, id: usize, tier: &str) -> String {
             } else if rng.chance(1, 4) {
                 w + 1 + rng.below(4) as usize
             } else {
-                w + 1 + rng.below((80 - w) as u64) as usize
+                w + 1 + rng.below((maxlen - w) as u64) as usize
             };
             tries += 1;
             if !lens.contains(&l) || tries > 8 {
                 break;
             }
         }
-        lens.push(l.min(80).max(w));
+        lens.push(l.min(maxlen).max(w));
     }
     let planted = gen_seq(rng, abc, w, 0);
     let seqs: Vec<String> = lens
